@@ -37,6 +37,11 @@ TStep ==
    /\ LET r == Trace[l] IN
         IF r.ev = "reset" THEN
            /\ pc' = "sess" /\ ac' = "sess" /\ fam' = "valid" /\ due' = FALSE /\ n' = 0 /\ last' = [op |-> "login"] /\ lost' = FALSE
+        ELSE IF r.ev = "apostmix" THEN
+           \* a POST carrying a validly signed return address in one place and another address in the other (query
+           \* string / body): if the browser is returned anywhere, it is to the validly signed one (samehost = it is)
+           /\ IF r.back /\ ~r.samehost THEN PrintT(<<"VIOL", l, {"C19_GatedSignOut"}>>) ELSE TRUE
+           /\ UNCHANGED <<vars, lost>>
         ELSE IF lost THEN UNCHANGED <<vars, lost>>
         ELSE /\ Act(r)
              /\ LET vs == Violated(ac, fam, Obs(r)) dr == Drift(r) IN
